@@ -1,13 +1,27 @@
 (* Props/C01.v -- retained samples keep their absolute timestamps under every crop or slice.
    Statements only; proofs are in Proofs/LedgerProofs.v. *)
 From Coq Require Import ZArith QArith List.
-From PB Require Import Lib.PySlice Model.Ledger Proofs.LedgerProofs.
+From PB Require Import Lib.PySlice Model.Ledger Proofs.LedgerProofs Gen.GenLedger Proofs.LedgerGen.
 Open Scope Z_scope.
 
 (* sound l l' off stride :=  0 <= len l'  /\ 0 < stride /\ 0 <= off /\ 0 < rate l' /\ rate l' == rate l / stride
      /\ (t0 l' = None <-> t0 l = None)
      /\ (forall k, 0 <= k < len l' -> 0 <= off + k*stride < len l)            (provenance in range)
      /\ (forall k, time_of l' k == time_of l (off + k*stride))                (timestamps preserved) *)
+
+(* tie to the source by translation (T4): the start-time, sample-rate and positive-step arithmetic of the model's time_slice are the
+   terms GENERATED from Signal._time_slice (core.py) on this run -- every crop and slice of the library goes through that method *)
+Theorem C01_generated_core : forall (l : ledger) (a b c : option Z),
+  time_slice l a b c =
+  match slice_indices a b c (len l) with
+  | None => Err (match c with Some 0 => 3 | _ => 2 end)
+  | Some (lo, hi, st) =>
+      Ok {| t0 := gen_ts_start l lo hi st; rate := gen_ts_rate l lo hi st; len := range_len lo hi st |} lo st
+  end.
+Proof. exact time_slice_generated. Qed.
+Theorem C01_generated_guard : forall (a b c : option Z) (n lo hi st : Z),
+  slice_indices a b c n = Some (lo, hi, st) -> gen_ts_guard lo hi st = true.
+Proof. exact slice_guard_generated. Qed.
 
 Theorem C01_step : forall l o l' off stride,
   (0 < rate l)%Q -> 0 <= len l -> step l o = Ok l' off stride -> sound l l' off stride.
@@ -60,3 +74,4 @@ Print Assumptions C01_contains.
 Print Assumptions C01_contains_samples.
 Print Assumptions C01_model_meets_spec.
 Print Assumptions C01_shift_crop_no_wrap.
+Print Assumptions C01_generated_core.
